@@ -1,23 +1,4 @@
-import json, os
-
-_ROOT = os.path.dirname(os.path.dirname(os.path.dirname(os.path.abspath(__file__))))
-
-
-def _f4_known():
-    """F4 (`maxlen:65335` on x509.SignedCertificateTimestampList) is still listed as an open finding."""
-    try:
-        fs = json.load(open(os.path.join(_ROOT, "known_findings.json"))).get("findings", [])
-    except OSError:
-        return False
-    return any(f.get("property") == "C04" and f.get("id") == "F4" and f.get("status") == "known" for f in fs)
-
-
-# CTV.Props.C04SctList states the SCT-list equalities at full strength (RFC 6962 section 3.3, ceiling 2^16-1).  They are false
-# for the tag `maxlen:65335`, so while F4 is an open (known) finding the module is not an obligation: the check then
-# relies on C04.enc_sctList_sound / dec_sctList_sound plus the harness, which exhibits the failing lengths
-# 65336..65535 on every run.  As soon as the finding is marked fixed (or removed) the full theorems are demanded.
-# VERIF_C04_FULL=1 forces them (used to validate fixes/C04-1.diff on a scratch tree).
-PROPS = ["CTV.Props.C04"] + ([] if (_f4_known() and not os.environ.get("VERIF_C04_FULL")) else ["CTV.Props.C04SctList"])
+PROPS = ["CTV.Props.C04", "CTV.Props.C04SctList"]
 HARNESS = [dict(pkg=".", test="TestVerifC04", timeout=900)]
 RULE = ("tls.Marshal / tls.Unmarshal of the exported ct types, the serialization.go functions and the JSON message conversions at the length "
         "boundaries {0,1,255,256,65535,65536} (2^24-1 once in the thorough tier), both entry types, all 256 hash / signature codes, empty and "
